@@ -78,6 +78,7 @@ func main() {
 			r.Cases("trig-sweep", r.Scale(24, 100), 1, func(c *vkit.Case) { trigSweep(c) })
 			if r.Thorough() {
 				r.Cases("trig-wrap32", 2, 1, func(c *vkit.Case) { trigWrap32(c) })
+				r.Cases("slow-scale", 1, 1, func(c *vkit.Case) { slowScale(c) })
 			}
 			r.Floor("trigger sweep rounds", r.Table("trig-sweep", "rounds"), 300000)
 			return
